@@ -239,6 +239,22 @@ def llPark (r : Run) (i : Nat) (stage : Nat) : Run :=
     let r := if stage ≥ 3 then walk r i (nodeIs k .bodyRead "downloadPlaylist") okOnly "ll:reload-body" else r
     r
 
+/-- does the regenerated downloader graph have the end-of-stream wait of `runLowLatency` (`<-ctx.Done()` after
+    `push(nil)`, fix-F28)? Upstream it does not: there a Low-Latency stream can only end with an error. -/
+def llHasEosWait : Bool :=
+  match kindIdx "clientStreamDownloader" with
+  | none => false
+  | some k =>
+    match P.graphs[k]? with
+    | some g => (List.range g.nodes.length).any fun j => nodeIs k .recvCtxDone "clientStreamDownloader.runLowLatency" (.node j)
+    | none => false
+
+/-- park downloader task `i` where the downloader of an ended Low-Latency stream waits for Close -/
+def llParkEos (r : Run) (i : Nat) : Run :=
+  match kindIdx "clientStreamDownloader" with
+  | none => { r with stuck := some "no-kind:downloader" }
+  | some k => walk (llPark r i 3) i (nodeIs k .recvCtxDone "clientStreamDownloader.runLowLatency") okOnly "ll:eos-wait"
+
 /-- which request of a Low-Latency downloader has (global) index `idx` in the single-stream layout: init, hint, reload -/
 def llStage (idx : Nat) : Option Nat :=
   if idx < 2 then none else if idx % 2 = 0 then some 0 else some 2
@@ -332,8 +348,12 @@ def predict (s : Scn) : String :=
     setHeld (finish s r) "-"
   else
     -- a task returns an error: which one
-    -- a Low-Latency stream ends when the origin stops advertising a hint: `return fmt.Errorf("preload hint disappeared")`
-    let llEnd : Bool := s.fmt = "ll" ∧ s.fault ≠ "ontracks" ∧ ¬ ((s.fault = "transport" ∨ s.fault = "status") ∧ inRange)
+    -- a Low-Latency stream ends when the origin stops advertising a hint (its last playlist carries ENDLIST):
+    -- with the end-of-stream path of fix-F28 the downloader pushes the nil marker and waits, the client ends with
+    -- ErrClientEOS; upstream: `return fmt.Errorf("preload hint disappeared")`
+    let llNatural : Bool := s.fmt = "ll" ∧ s.fault ≠ "ontracks" ∧ ¬ ((s.fault = "transport" ∨ s.fault = "status") ∧ inRange)
+    let llEnd : Bool := llNatural ∧ ¬ llHasEosWait
+    let llEos : Bool := llNatural ∧ llHasEosWait
     let goal : Option RetK :=
       if s.fault = "ontracks" then some .callback
       else if s.fault = "transport" ∧ inRange then some .io
@@ -348,6 +368,10 @@ def predict (s : Scn) : String :=
         (r, d)
       else (r, 0)
     let r := if who ≠ 0 ∨ s.fault = "ontracks" ∨ goal = some .eos then populate (if who = 0 then walk r 0 isNode notCancel "primary" else r) s.fidx else r
+    let r := if llEos then
+        let (r, d) := spawnKind r 0 "clientStreamDownloader"
+        llParkEos r d
+      else r
     let r := if s.fmt = "ll" ∧ who ≠ 0 then
         (if llEnd then llPark r who 3 else
           match llStage s.fidx with
